@@ -30,6 +30,11 @@ def _dt(case, nrmA):
 
 def check_eigh(case, rec):
     A, v, k, reach = build(case)
+    if k < 0:
+        rec.skip('real start vector with a nearly vanishing eigen-component: Krylov dimension numerically fuzzy')
+        return
+    if case.get('real_start'):
+        rec.label('real_start_complex_map')
     n = A.shape[0]; m = case['m']; numeig = min(case['numeig'], m)
     s = max(1.0, np.linalg.norm(A, 2))
     lam = np.linalg.eigvalsh(A)
@@ -77,6 +82,11 @@ def check_eigh(case, rec):
 
 def check_expm(case, rec):
     A, v, k, reach = build(case)
+    if k < 0:
+        rec.skip('real start vector with a nearly vanishing eigen-component: Krylov dimension numerically fuzzy')
+        return
+    if case.get('real_start'):
+        rec.label('real_start_complex_map')
     n = A.shape[0]; m = case['m']
     herm_matrix = case['kind'].startswith('herm')
     flag = bool(case['hermitian_flag']) if herm_matrix else False
